@@ -431,10 +431,22 @@ func (m *Model) applyZSet(o Op) Exp {
 				sel = append(sel, p)
 			}
 		}
-		if o.Name == "zlexcount" {
-			return Exp{R: rInt(int64(len(sel)))}
+		// input class: the lower bound ends in a NUL byte and the member that is
+		// the bound without that byte exists too (key K and key K+"\x00": the
+		// mem engine's radix index appends a NUL terminator to every key and
+		// its lower-bound seek then lands wrong; pebble is right)
+		cls := ""
+		if e != nil && !lo.min && strings.HasSuffix(lo.v, "\x00") {
+			if _, ok := e.m[lo.v[:len(lo.v)-1]]; ok {
+				cls = "nul-suffix-lower-bound"
+			}
 		}
-		return zreply(applyLimit(sel, off, cnt), false)
+		if o.Name == "zlexcount" {
+			return Exp{R: rInt(int64(len(sel))), Class: cls}
+		}
+		ex := zreply(applyLimit(sel, off, cnt), false)
+		ex.Class = cls
+		return ex
 	case "zrank", "zrevrank":
 		ps := zsorted(m.zsetR(tk))
 		if o.Name == "zrevrank" {
